@@ -1,13 +1,13 @@
 SPECIFICATION Spec
 CONSTANTS
   NV = 4
-  NGenesis = 3
-  MaxEpoch = 4
+  NGenesis = 2
+  MaxEpoch = 3
   MinLA = 1
   MaxLA = 1
   Period = 2
-  AltairEpoch = 2
-  KnownDeviations = {}
+  AltairEpoch = 1
+  KnownDeviations = {"epc-eff-short-after-deposit"}
   Flaw_StaleNext = FALSE
   Flaw_NoProposerReload = FALSE
   Flaw_NoStakeReload = FALSE
